@@ -125,12 +125,17 @@ type tevent struct {
 
 // traverse steps the real traverser over the blocks marked present; returns the event log
 func traverse(d *dag.DAG, sel datamodel.Node, present func(int) bool) ([]tevent, error) {
+	return traverseFrom(d, 0, sel, present)
+}
+
+// traverseFrom: the same from the block with index root
+func traverseFrom(d *dag.DAG, root int, sel datamodel.Node, present func(int) bool) ([]tevent, error) {
 	ctx, cancel := context.WithCancel(context.Background())
 	defer cancel()
 	var mu sync.Mutex
 	var evs []tevent
 	t := ipldutil.TraversalBuilder{
-		Root:     d.Root(),
+		Root:     cidlink.Link{Cid: d.Blocks[root].Cid},
 		Selector: sel,
 		Chooser: func(l datamodel.Link, lc linking.LinkContext) (datamodel.NodePrototype, error) {
 			return basicnode.Prototype.Any, nil
@@ -169,7 +174,11 @@ func traverse(d *dag.DAG, sel datamodel.Node, present func(int) bool) ([]tevent,
 
 // harvest builds the plan of (d, sel) over the full universe
 func harvest(d *dag.DAG, sel datamodel.Node, tb *tables) (*plan, error) {
-	evs, err := traverse(d, sel, func(int) bool { return true })
+	return harvestFrom(d, 0, sel, tb)
+}
+
+func harvestFrom(d *dag.DAG, rootIdx int, sel datamodel.Node, tb *tables) (*plan, error) {
+	evs, err := traverseFrom(d, rootIdx, sel, func(int) bool { return true })
 	if err != nil {
 		return nil, err
 	}
